@@ -1,3 +1,103 @@
 package main
 
-func c12ClientScenarios(tier string) []Scenario { return nil }
+import (
+	"fmt"
+
+	"github.com/rminnich/go9p"
+	"github.com/rminnich/go9p/vs"
+	"harness/wire"
+)
+
+// client direction of C12: Connect against a scripted peer
+func c12ClientScenario(cliMsize uint32, cliDotu bool) Scenario {
+	name := fmt.Sprintf("client-connect msize=%d dotu=%v", cliMsize, cliDotu)
+	return Scenario{Name: name, Run: func(rc *RunCtx) *Result {
+		res := &Result{Exhaustive: true}
+		seen := map[string]bool{}
+		answers := []uint32{24, cliMsize - 1, cliMsize, cliMsize + 1, cliMsize / 2, 1 << 20, ^uint32(0)}
+		vers := []string{"9P2000", "9P2000.u", "unknown", "9P2000.L"}
+		for _, am := range answers {
+			if am < 24 {
+				continue
+			}
+			for _, av := range vers {
+				var bad string
+				body := func() {
+					resetClientGlobals()
+					ce, se := vs.Pipe("clnt", "peer")
+					peer := NewPeer(se, false)
+					peer.VersionMsize, peer.VersionStr = am, av
+					wantM := cliMsize
+					if am < wantM {
+						wantM = am
+					}
+					wantU := cliDotu && av == "9P2000.u"
+					peer.DotuAfterVersion = &wantU
+					vs.Go("peer", peer.Serve)
+					c, err := go9p.Connect(ce, cliMsize, cliDotu)
+					if err != nil {
+						bad = fmt.Sprintf("Connect failed: %v", err)
+						return
+					}
+					if c.Msize != wantM {
+						bad = fmt.Sprintf("Clnt.Msize = %d after the server answered %d to a request for %d", c.Msize, am, cliMsize)
+						return
+					}
+					if c.Dotu != wantU {
+						bad = fmt.Sprintf("Clnt.Dotu = %v after the server answered %q (asked for .u: %v)", c.Dotu, av, cliDotu)
+						return
+					}
+					// later request frames stay within msize
+					f := mkFid(c, 5)
+					if err := c.Open(f, go9p.ORDWR); err != nil {
+						bad = "Open: " + err.Error()
+						return
+					}
+					data := make([]byte, 3*int(cliMsize)+7)
+					if _, err := c.Write(f, data, 0); err != nil && wantM > 24 {
+						bad = "Write: " + err.Error()
+						return
+					}
+					c.Read(f, 0, ^uint32(0))
+					if uint32(peer.MaxFrame) > wantM {
+						bad = fmt.Sprintf("the client sent a frame of %d bytes, msize is %d", peer.MaxFrame, wantM)
+						return
+					}
+					for _, m := range peer.Seen {
+						if m.Type == wire.Tread && m.Count > wantM-24 {
+							bad = fmt.Sprintf("Tread asks for %d bytes, msize-IOHDRSZ is %d", m.Count, wantM-24)
+						}
+					}
+					if peer.BadFrame != "" {
+						bad = "the peer could not parse a request in the negotiated dialect: " + peer.BadFrame
+					}
+				}
+				x := vs.Run(nil, body, vs.Options{})
+				res.Evals++
+				res.Nontrivial++
+				if len(x.Panics) > 0 {
+					bad = "panic: " + x.Panics[0].Value
+				}
+				if bad != "" {
+					sig := "C12/client/" + sigWords(bad)
+					if !seen[sig] {
+						seen[sig] = true
+						res.Findings = append(res.Findings, Finding{Sig: sig, Msg: fmt.Sprintf("%s, server answers (msize %d, %q): %s", name, am, av, bad)})
+					}
+				}
+			}
+		}
+		res.Samples = append(res.Samples, fmt.Sprintf("Connect(msize %d, dotu %v) against Rversion msize %v x version %v, then Open/Write(3*msize)/Read(2^32-1)", cliMsize, cliDotu, answers, vers))
+		return res
+	}}
+}
+
+func c12ClientScenarios(tier string) []Scenario {
+	var out []Scenario
+	for _, ms := range []uint32{64, 256, 8216, 65560} {
+		for _, d := range []bool{false, true} {
+			out = append(out, c12ClientScenario(ms, d))
+		}
+	}
+	return out
+}
